@@ -32,6 +32,8 @@ Lemma name_limit_spec : cas_req_name_limit = 8.
 Proof. reflexivity. Qed.
 Lemma eot_closes_spec : cas_search_eot_closes = true.
 Proof. reflexivity. Qed.
+Lemma skips_binary_spec : cas_search_skips_binary = true.
+Proof. reflexivity. Qed.
 
 Global Opaque cas_flush_stop cas_final_count cas_final_present cas_is_last cas_last_take
   cas_full_prefix cas_magic cas_header_tail nchunk nblock.
@@ -473,24 +475,23 @@ Proof.
       * rewrite full_prefix_spec. cbn [app hd]. lia.
 Qed.
 
-(* files the reader can pass over: their data records must not look like a header or be empty *)
+(* files the search can pass over: B/P/M files always (their data record is read, skip_data); a text/data
+   file unless its last count byte is A5, which the scan for the next header takes for a header *)
 Definition skippable (f : wfile) : Prop :=
-  if is_binary (wf_type f) then wf_data f <> [] /\ hd 0 (wf_data f) <> 165
-  else (zlen (wf_data f)) mod 255 <> 164.
+  is_binary (wf_type f) = false -> (zlen (wf_data f)) mod 255 <> 164.
 
-Lemma search_pass_body f nreq treq cur msgs seen rest : skippable f ->
+Lemma search_pass_body f nreq treq cur msgs seen rest : is_binary (wf_type f) = false -> skippable f ->
   search nreq treq cur msgs seen (body_records f ++ rest) = search nreq treq cur msgs seen rest.
 Proof.
-  unfold skippable, body_records. destruct (is_binary (wf_type f)).
-  - intros [Hne Hh]. unfold binary_records. cbn [app]. apply search_pass_record; assumption.
-  - intros Hm. destruct (text_records_eq (wf_chunks f)) as (rs & b & F & Hb & E). rewrite E.
-    rewrite <- app_assoc. cbn [app].
-    assert (Hne : concat (wf_chunks f) ++ [0] <> []) by (intros C; apply app_eq_nil in C; destruct C; discriminate).
-    apply (search_pass_text _ _ _ _ _ _ _ _ rs b (Nat.le_refl _) Hne F).
-    rewrite (flush_rest_len _ _ _ _ (Nat.le_refl _) Hne F).
-    unfold zlen. rewrite app_length. cbn [length]. unfold wf_data, zlen in Hm.
-    replace (Z.of_nat (length (concat (wf_chunks f)) + 1) - 1) with (Z.of_nat (length (concat (wf_chunks f)))) by lia.
-    lia.
+  unfold skippable, body_records. intros Hbin Hs. specialize (Hs Hbin). rewrite Hbin.
+  destruct (text_records_eq (wf_chunks f)) as (rs & b & F & Hb & E). rewrite E.
+  rewrite <- app_assoc. cbn [app].
+  assert (Hne : concat (wf_chunks f) ++ [0] <> []) by (intros C; apply app_eq_nil in C; destruct C; discriminate).
+  apply (search_pass_text _ _ _ _ _ _ _ _ rs b (Nat.le_refl _) Hne F).
+  rewrite (flush_rest_len _ _ _ _ (Nat.le_refl _) Hne F).
+  unfold zlen. rewrite app_length. cbn [length]. unfold wf_data, zlen in Hs.
+  replace (Z.of_nat (length (concat (wf_chunks f)) + 1) - 1) with (Z.of_nat (length (concat (wf_chunks f)))) by lia.
+  lia.
 Qed.
 
 Definition matches (nreq treq : list Z) (f : wfile) : bool :=
@@ -502,13 +503,22 @@ Lemma search_header last f nreq treq cur msgs seen rest : file_ok f -> last_ok l
     search nreq treq cur msgs seen (file_records last f ++ rest) =
     if matches nreq treq f
     then SFound hb (wf_type f) (msgs ++ msg 1 (pad_name (wf_name f)) (wf_type f)) (body_records f ++ rest)
-    else search nreq treq (wf_type f) (msgs ++ msg 2 (pad_name (wf_name f)) (wf_type f)) true (body_records f ++ rest).
+    else search nreq treq (wf_type f) (msgs ++ msg 2 (pad_name (wf_name f)) (wf_type f)) true
+                (if is_binary (wf_type f) then rest else body_records f ++ rest).
 Proof.
   intros Hf Hl. pose proof (hdr_fields_ok _ _ Hf Hl) as Hl'. destruct Hf as (Hn & Ht & Hb).
   unfold file_records. destruct (hdr_fields last f) as [[seg offs] len] eqn:E. destruct Hl' as (H1 & H2 & H3).
   destruct (header_record (wf_name f) (token_of (wf_type f)) len seg offs H3 H1 H2) as (hb & Er & Hm & Hp).
   exists hb. split; [exact Hp|]. rewrite Er. cbn [app search]. rewrite Hm, Z.eqb_refl, Hp.
-  destruct (token_roundtrip _ Ht) as [_ T2]. rewrite T2. reflexivity.
+  destruct (token_roundtrip _ Ht) as [_ T2]. rewrite T2. unfold matches.
+  destruct (name_match nreq (pad_name (wf_name f)) && type_match treq (wf_type f)); [reflexivity|].
+  rewrite skips_binary_spec. cbn [andb].
+  destruct (ftype_cases _ Ht) as [[Ha Hbin]|[Ha Hbin]]; rewrite Hbin; [reflexivity|].
+  unfold hdr_fields in E. rewrite Ha in E. inversion E; subst.
+  unfold body_records. rewrite Hbin. unfold binary_records. cbn [app].
+  unfold mk_record, wf_data.
+  destruct (read_rec_blocks (length (concat (wf_chunks f))) (concat (wf_chunks f)) 0 (Nat.le_refl _)) as [p Hp'].
+  rewrite Z.add_0_l in Hp'. rewrite Hp'. reflexivity.
 Qed.
 
 Definition skipped_msgs (fs : list wfile) : list Z :=
@@ -528,7 +538,14 @@ Proof.
   - inversion Hf as [|? ? (Hok & Hsk & Hnm) Hr]; subst. cbn [files_records]. rewrite <- app_assoc.
     destruct (search_header last f nreq treq cur msgs seen (files_records (hdr_fields last f) r ++ rest) Hok Hl)
       as (hb & _ & Es).
-    rewrite Es, Hnm, search_pass_body by exact Hsk.
+    rewrite Es, Hnm.
+    assert (Ebody : search nreq treq (wf_type f) (msgs ++ msg 2 (pad_name (wf_name f)) (wf_type f)) true
+              (if is_binary (wf_type f) then files_records (hdr_fields last f) r ++ rest
+               else body_records f ++ files_records (hdr_fields last f) r ++ rest) =
+            search nreq treq (wf_type f) (msgs ++ msg 2 (pad_name (wf_name f)) (wf_type f)) true
+              (files_records (hdr_fields last f) r ++ rest)).
+    { destruct (is_binary (wf_type f)) eqn:Hbin; [reflexivity|]. apply search_pass_body; assumption. }
+    rewrite Ebody.
     rewrite IH by (try assumption; apply hdr_fields_ok; assumption).
     unfold last_type, skipped_msgs. cbn [fold_left flat_map]. rewrite <- app_assoc, orb_true_r. reflexivity.
 Qed.
@@ -635,16 +652,10 @@ Proof.
 Qed.
 
 Definition skippableb (f : wfile) : bool :=
-  if is_binary (wf_type f)
-  then match wf_data f with [] => false | c :: _ => negb (c =? 165) end
-  else negb ((zlen (wf_data f)) mod 255 =? 164).
+  is_binary (wf_type f) || negb ((zlen (wf_data f)) mod 255 =? 164).
 
 Lemma skippableb_ok f : skippableb f = true -> skippable f.
-Proof.
-  unfold skippableb, skippable. destruct (is_binary (wf_type f)).
-  - destruct (wf_data f) as [|c d]; [discriminate|]. intros H. split; [discriminate|]. cbn [hd]. lia.
-  - intros H. lia.
-Qed.
+Proof. unfold skippableb, skippable. intros H Hb. rewrite Hb in H. cbn [orb] in H. lia. Qed.
 
 Lemma passed_overb_ok nreq treq f :
   file_okb f && skippableb f && negb (matches nreq treq f) = true -> passed_over nreq treq f.
@@ -654,22 +665,25 @@ Proof.
   destruct (matches nreq treq f); [discriminate|reflexivity].
 Qed.
 
-(* ------------------------------------------------------------------------------------------------ witnesses outside the search theorem (known findings K29a, K29b) *)
+(* ------------------------------------------------------------------------------------------------ witness outside the search theorem (known finding K29a) *)
 
-(* a BSAVEd block that starts with A5 and looks like the header of "B" *)
+(* a data file of 164 bytes: its only record has count byte A5, and the contents look like the header of "B" *)
 Definition fake_file : wfile :=
-  {| wf_name := [65]; wf_type := tM; wf_seg := 0; wf_off := 0;
-     wf_chunks := [[165; 66; 32; 32; 32; 32; 32; 32; 32; 0; 0; 0; 0; 0; 0; 0; 9; 9; 9]] |}.
+  {| wf_name := [65]; wf_type := tD; wf_seg := 0; wf_off := 0;
+     wf_chunks := [[66; 32; 32; 32; 32; 32; 32; 32; 0] ++ repeat 9 155] |}.
 Definition real_file : wfile :=
   {| wf_name := [66]; wf_type := tD; wf_seg := 0; wf_off := 0; wf_chunks := [[1; 2; 3]] |}.
-(* BSAVE of zero bytes: a record without blocks *)
+(* BSAVE of zero bytes (a record without blocks) and a memory image that starts like a header of "B" *)
 Definition empty_file : wfile :=
   {| wf_name := [65]; wf_type := tM; wf_seg := 0; wf_off := 0; wf_chunks := [] |}.
+Definition a5_file : wfile :=
+  {| wf_name := [67]; wf_type := tM; wf_seg := 0; wf_off := 0;
+     wf_chunks := [[165; 66; 32; 32; 32; 32; 32; 32; 32; 0; 0; 0; 0; 0; 0; 0; 9; 9; 9]] |}.
 
-Lemma witness_files_ok : file_ok fake_file /\ file_ok real_file /\ file_ok empty_file /\
-  matches [66] [] fake_file = false /\ matches [66] [] empty_file = false /\ matches [66] [] real_file = true.
+Lemma witness_files_ok : file_ok fake_file /\ file_ok real_file /\
+  matches [66] [] fake_file = false /\ matches [66] [] real_file = true.
 Proof.
-  do 3 (split; [apply file_okb_ok; reflexivity|]). repeat split; reflexivity.
+  do 2 (split; [apply file_okb_ok; reflexivity|]). repeat split; reflexivity.
 Qed.
 
 (* searching for "B" across the fake header returns the wrong file *)
@@ -678,8 +692,3 @@ Lemma fake_header_shadows :
   ({| r_tape := write_tape [fake_file; real_file]; r_rest := []; r_type := tD; r_open := false |},
    skipped_msgs [fake_file] ++ msg 1 (pad_name [66]) tD, OFile (view (0, 0, 0) real_file)).
 Proof. vm_compute. discriminate. Qed.
-
-(* searching across an empty record ends in Device I/O error *)
-Lemma empty_record_breaks_search :
-  snd (open_read_all (rst0 (write_tape [empty_file; real_file])) [66] []) = OErr 57.
-Proof. vm_compute. reflexivity. Qed.
